@@ -50,9 +50,28 @@ fn decode(tape: &[u32], tier: Tier) -> Case {
     let mut t = Tape::new(tape);
     let maxdim = tier.pick(6, 12);
     let k = t.pick(9);
-    let src = [t.usize(1, maxdim), t.usize(1, maxdim), t.usize(1, maxdim)];
+    let mut src = [t.usize(1, maxdim), t.usize(1, maxdim), t.usize(1, maxdim)];
+    // one case in 40: a large tensor (>= 16384 elements), channel counts that are not powers of two included
+    let large = t.chance(1, 40);
+    if large {
+        src = [t.usize(1, 7), t.usize(48, 96), t.usize(48, 96)];
+        while src[0] * src[1] * src[2] < 16384 {
+            src[0] += 1;
+        }
+    }
     let n = src[0] * src[1] * src[2];
-    let facts = factorizations(n);
+    // large tensors: only a few factorisations are enumerated (cost)
+    let facts = if large {
+        let (c, h, w) = (src[0], src[1], src[2]);
+        let mut f = vec![[c, h, w], [1, c * h, w], [c * h, 1, w], [c, w, h], [1, 1, n], [n, 1, 1]];
+        if c % 2 == 0 { f.push([c / 2, h * 2, w]); }
+        if h % 2 == 0 { f.push([c * 2, h / 2, w]); }
+        if w % 2 == 0 { f.push([c * 2, h, w / 2]); }
+        if h % 3 == 0 { f.push([c * 3, h / 3, w]); }
+        f
+    } else {
+        factorizations(n)
+    };
     let dst = facts[t.pick(facts.len())];
     let content = t.pick(4) as u32;
     let seed = t.raw();
@@ -264,7 +283,7 @@ impl Prop for C14 {
         t.pick(1_000_000, 100_000_000)
     }
     fn rule(&self) -> String {
-        "tape-decoded (operation, source shape with axes 1..6 (thorough 1..12), target = a factorisation of the element count or a shape with a different count, contents class incl. signed zeros/subnormals/f32::MAX, chains of up to 5 reshapes optionally via a vector). Oracle: explicit row-major index arithmetic c*H*W+h*W+w, bitwise. Non-trivial: >= 2 axes > 1 and height != width. Distinct = (operation, source shape, target shape).".into()
+        "tape-decoded (operation, source shape with axes 1..6 (thorough 1..12; one case in 40 is a large tensor of >= 16384 elements with 1..7+ channels), target = a factorisation of the element count or a shape with a different count, contents class incl. signed zeros/subnormals/f32::MAX, chains of up to 5 reshapes optionally via a vector). Oracle: explicit row-major index arithmetic c*H*W+h*W+w, bitwise. Non-trivial: >= 2 axes > 1 and height != width. Distinct = (operation, source shape, target shape).".into()
     }
     fn run_case(&self, tape: &[u32], ev: &mut CaseEv) -> CheckResult {
         check(&decode(tape, self.0), ev)
